@@ -172,6 +172,17 @@ def same(a, b, path=''):
     return None
 
 
+def _grow(value):
+    """Add an entry to every dictionary nested in ``value`` (what further emissions into existing namespaces do)."""
+    if isinstance(value, dict):
+        for sub in list(value.values()):
+            _grow(sub)
+        value['pv_later'] = 1
+    elif isinstance(value, list):
+        for sub in value:
+            _grow(sub)
+
+
 def _load_and_resave(ckpt, medium, loader, how='unbundle'):
     out = {}
     data = media.encode(ckpt['bundle'], medium)
@@ -193,6 +204,13 @@ def _load_and_resave(ckpt, medium, loader, how='unbundle'):
             out['bundle'] = copy.deepcopy(media.bundle_of(proc, loader, dereference=ckpt['index'] % 2 == 1))
         except Exception as exc:  # noqa: BLE001
             out['save_error'] = exc
+        # ... also after the loaded process went on and put more into its (nested) outputs, as a later step would
+        try:
+            out['observed'] = copy.deepcopy(out['observed'])  # (what was observed before the process went on)
+        except Exception:  # noqa: BLE001 - something uncopyable in the outcome: leave the outputs alone
+            return out
+        _grow(proc.outputs)
+        out['bundle_changed_by_loaded_process'] = same(pristine, decoded)
     return out
 
 
@@ -258,6 +276,9 @@ def execute(case):
                 continue
             if res.get('bundle_changed_by_load'):
                 v('load-changed-the-bundle', f"{where} via {medium} ({how}): loading changed the saved state it was given: {res['bundle_changed_by_load']}")
+                continue
+            if res.get('bundle_changed_by_loaded_process'):
+                v('loaded-process-shares-the-bundle', f"{where} via {medium} ({how}): outputs emitted by the loaded process afterwards showed up in the saved state it was loaded from: {res['bundle_changed_by_loaded_process']}")
                 continue
             if 'save_error' in res:
                 v('resave-failed', f"{where} via {medium}: {res['save_error']!r}")
